@@ -1,8 +1,8 @@
 (* C14  A run resumed from persisted state continues exactly like the uninterrupted run (partial: serialisation - jsonpickle, pickle -
    and the strategy context / universe / broker order book are runtime and compared by the split runs only). *)
 From RQ Require Import Model.Num Model.Calendar Model.Position Model.Account Model.AccountRun Model.EventLoop Model.Persist
-From RQ Require Import Model.Globals Model.PersistKeys Gen.PersistKeys.
      Proofs.NumFacts Proofs.PersistFacts.
+From RQ Require Import Model.Globals Model.PersistKeys Gen.PersistKeys.
 Open Scope Z_scope.
 
 (* what is written and read back loses nothing of a position or an account ... *)
@@ -53,7 +53,7 @@ Theorem C14_code_state_records :
   forallb (fun ck => forallb (fun k => mem_str k (keys_of (fst ck) read_back)) (snd ck)) required_keys = true /\
   forallb (fun c => negb (flag_of c filtered)) unfiltered_classes = true /\
   forallb (fun ck => forallb (fun k => same_field (fst ck) k written_from restored_to) (snd ck)) round_trip_fields = true.
-Proof. repeat split; [exact required_keys_written|exact required_keys_read_back|exact nothing_filtered_out|exact fields_round_trip]. Qed.
+Proof. split; [exact required_keys_written|]. split; [exact required_keys_read_back|]. split; [exact nothing_filtered_out|exact fields_round_trip]. Qed.
 
 Print Assumptions C14_position_roundtrip.
 Print Assumptions C14_account_roundtrip.
